@@ -140,6 +140,12 @@ func init() {
 			return nil
 		}
 		assertImpl := func(ex *Exec, c Term, label, finding string, region Term) {
+			if finding != "" {
+				if ex.LabelFinding == nil {
+					ex.LabelFinding = map[string]string{}
+				}
+				ex.LabelFinding[label] = finding
+			}
 			ex.asserts = append(ex.asserts, assertRec{label, c})
 			ex.events = append(ex.events, Event{"assert", label, true})
 			if c.Const && c.B {
